@@ -17,7 +17,11 @@ namespace {
 template <typename T, size_t o>
 void evalCase(Ctx &c, Rng &g) {
   const bool dyadic = !ST<T>::exact;
-  const std::vector<R> pts = genGrid(g, dyadic, 2, 12);
+  // one case in sixteen lives on a large grid (65..120 points)
+  const bool large = c.caseId % 16 == 15;
+  const std::vector<R> pts =
+      large ? genGrid(g, dyadic, 65, 120) : genGrid(g, dyadic, 2, 12);
+  c.count(large ? "grid:large" : "grid:small");
   const size_t n = pts.size();
   const Grid<T> grid = mkGrid<T>(pts);
   // window strata
